@@ -33,8 +33,9 @@ where
     pub fn optimize(mut self, path: Path) -> Vec<Path> {
         self.solutions.push(path);
 
+        // NOTE: all discovered solutions are kept: the gain is a sum of rounded terms, so it can be positive in both
+        // directions between tours of equal length, and a search that forgets the visited tours cycles forever
         while let Some(improved_path) = self.solutions.last().and_then(|p| self.improve(p.iter().copied())) {
-            self.solutions.clear();
             self.solutions.push(improved_path);
         }
 
